@@ -132,6 +132,20 @@ func (s *c05state) launch(m *Module, it *c05item) {
 			s.lastEnd = vsched.Now()
 			return errors.New("service worker failed")
 		})
+	case "service-restartnow":
+		// a service worker that asks for an immediate restart when it is cancelled: it must not be restarted on the stopping module
+		body := s.itemBody(it)
+		runs := 0
+		m.StartServiceWorker("swr", 0, func(ctx context.Context) error {
+			runs++
+			if runs > 1 {
+				s.lateRan = append(s.lateRan, "service-restartnow")
+				vsched.Ev("service-worker-restarted-while-stopping")
+				return nil
+			}
+			_ = body(ctx)
+			return fmt.Errorf("asking for a restart: %w", ErrRestartNow)
+		})
 	case "hook":
 		m.TriggerEvent("ev", nil)
 	case "xhook":
@@ -346,6 +360,11 @@ func VerifC05(p C05Params) *vsched.Scenario {
 		if s.allEnded() && (s.stopEnded || p.StopFn == "none") && retNow-s.lastEnd >= time.Second && retNow-s.cancelNow >= time.Second {
 			verifFail("stops-promptly", p.Trigger, "%s returned %s (virtual) after the last piece of work ended", p.Trigger, retNow-s.lastEnd)
 		}
+		for _, k := range s.lateRan {
+			if k == "service-restartnow" {
+				verifFail("stopped-module-runs-no-new-work", "service-worker-restarted", "a service worker that returned ErrRestartNow after its context was cancelled was started again on the stopping module")
+			}
+		}
 		// (d) nothing new runs on the stopped module
 		lateTask := false
 		s.m.NewTask("late", func(context.Context, *Task) error { lateTask = true; return nil }).Queue()
@@ -389,6 +408,9 @@ func VerifC05(p C05Params) *vsched.Scenario {
 		}
 		if r.Deadlock {
 			out = append(out, vsched.Issue{Clause: "no-deadlock", Disc: "deadlock", Detail: "blocked: " + strings.Join(r.Blocked, " | ")})
+		}
+		if r.StepLimit {
+			out = append(out, vsched.Issue{Clause: "stops-promptly", Disc: "never-finishes", Detail: fmt.Sprintf("the execution did not finish within %d scheduler steps (a complete execution takes a few hundred): some thread keeps running without ever blocking, the stop never completes", sc.MaxSteps)})
 		}
 		return out
 	}
